@@ -150,10 +150,12 @@ Section ObjectProofs.
     wf_obj r /\ ro_shape r = (n, m) /\ ro_times r = times /\ ro_tlay r = tlay /\ ro_bits r = b /\ ro_path r = fp
     /\ ro_order r = make_indices_order oarg ilay [length X; n; m].
   Proof.
-    unfold rays_init. cbn [fst snd]. destruct (ends_len size fp) as [e|] eqn:Ee; [|discriminate].
-    destruct (nat2_eqb tshape (n, m) && nat2_eqb (n, m) e) eqn:E1; cbn [negb]; [|discriminate].
+    unfold rays_init. cbn [fst snd].
+    destruct (nat2_eqb tshape (n, m)) eqn:Ea; cbn [negb]; [|discriminate].
+    destruct (ends_len size fp) as [e|] eqn:Ee; [|discriminate].
+    destruct (nat2_eqb (n, m) e) eqn:Eb; cbn [negb]; [|discriminate].
     destruct (fp_num_points_sets fp =? length X + 2) eqn:E2; cbn [negb]; [|discriminate].
-    intros [= <-]. apply andb_prop in E1 as [Ea Eb].
+    intros [= <-].
     unfold nat2_eqb in Ea, Eb. cbn [fst snd] in Ea, Eb.
     apply andb_prop in Ea as [Ea1 Ea2]. apply andb_prop in Eb as [Eb1 Eb2].
     apply Nat.eqb_eq in Ea1, Ea2, Eb1, Eb2, E2.
@@ -169,8 +171,8 @@ Section ObjectProofs.
   Proof.
     intros (X & HX & He & Hn). unfold rays_obj_to_fortran, rays_init, ro_d, ro_interior.
     rewrite HX, interior_of_make_indices, make_indices_length. cbn [fst snd].
-    rewrite He. destruct (ro_shape r) as [n m] eqn:Es. cbn [fst snd].
-    rewrite nat2_eqb_refl. cbn [andb negb].
+    destruct (ro_shape r) as [n m] eqn:Es. cbn [fst snd].
+    rewrite nat2_eqb_refl. cbn [negb]. rewrite He, nat2_eqb_refl. cbn [negb].
     replace (length X + 2 - 2) with (length X) by lia.
     rewrite Hn, Nat.eqb_refl. reflexivity.
   Qed.
@@ -192,8 +194,9 @@ Section ObjectProofs.
     unfold rays_obj_reverse. rewrite Hp, (fp_reverse_unparse V PS v_finite p Hlegs Hf).
     unfold rays_init, ro_d, ro_interior. rewrite HX, interior_of_make_indices, make_indices_length.
     rewrite <- He. cbn [fst snd].
+    rewrite nat2_eqb_refl. cbn [negb].
     rewrite ends_len_unparse, startp_reverse, endp_reverse. fold n m.
-    rewrite nat2_eqb_refl. cbn [andb negb].
+    rewrite nat2_eqb_refl. cbn [negb].
     replace (length X + 2 - 2) with (length X) by lia.
     rewrite fp_num_points_sets_unparse, nlegs_reverse.
     rewrite Hp, fp_num_points_sets_unparse in Hn. rewrite Hn, Nat.eqb_refl. cbn [negb].
